@@ -391,7 +391,14 @@ func (c *Ctx) checkClipExact() {
 	lastID := c.E().topicField("lastID")
 	hiF := c.field("server", "MsgDelRange", "HiId")
 	n := 0
-	for _, fn := range c.funcsCalling(dl, "server") {
+	for _, sfn := range c.funcsCalling(dl, "server") {
+		isClip := func(in ssa.Instruction) bool {
+			b, ok := in.(*ssa.BinOp)
+			return ok && core.IsBinOp(token.ADD, core.IsFieldLoad(lastID), core.IsConstInt(1), true)(b) && flowsToRangeBound(b, hiF)
+		}
+		// the handler may have been split into phases: the nearest function up the chain of sole
+		// callers whose region contains the clip
+		fn := c.climbUntil(sfn, func(root *ssa.Function) bool { return c.regionHas(root, isClip) })
 		c.withCallees(fn, 2, func(owner *ssa.Function, in ssa.Instruction, _ ssa.Instruction) {
 			b, ok := in.(*ssa.BinOp)
 			if !ok || !core.IsBinOp(token.ADD, core.IsFieldLoad(lastID), core.IsConstInt(1), true)(b) {
